@@ -1267,3 +1267,110 @@ V('c13-twin-all-loop', 'C13', 'R13.3', SEARCHPY,
             if not crit.matches(msg_seq, msg, loaded_msg):
                 return False
         return True''', expect='silent')
+
+# ---------------------------------------------------------------- C10
+FATTR = 'pymap/parsing/specials/fetchattr.py'
+BMBX = 'pymap/backend/mailbox.py'
+V('c10-add-delete-swapped', 'C10', 'R10.1', FLAGSPY,
+  '''        if self == FlagOp.ADD:
+            return frozenset(flag_set | operand)
+        elif self == FlagOp.DELETE:
+            return frozenset(flag_set - operand)''',
+  '''        if self == FlagOp.ADD:
+            return frozenset(flag_set - operand)
+        elif self == FlagOp.DELETE:
+            return frozenset(flag_set | operand)''')
+V('c10-replace-unions', 'C10', 'R10.1', FLAGSPY,
+  '''        else:  # op == FlagOp.REPLACE
+            return frozenset(operand)''',
+  '''        else:  # op == FlagOp.REPLACE
+            return frozenset(flag_set | operand)''')
+V('c10-plus-replace', 'C10', 'R10.1', SELECTCMD,
+  "_modes = {b'': FlagOp.REPLACE, b'+': FlagOp.ADD, b'-': FlagOp.DELETE}",
+  "_modes = {b'': FlagOp.REPLACE, b'+': FlagOp.REPLACE, b'-': FlagOp.DELETE}")
+V('c10-unfiltered-flags', 'C10', 'R10.2', SESS,
+  'permanent_flags = selected.permanent_flags & flag_set',
+  'permanent_flags = flag_set')
+V('c10-iterate-all', 'C10', 'R10.3', SESS,
+  '''        messages: list[tuple[int, MessageT]] = []
+        for seq, cached_msg in selected.messages.get_all(sequence_set):''',
+  '''        messages: list[tuple[int, MessageT]] = []
+        for seq, cached_msg in selected.messages.get_all(SequenceSet.all()):''')
+V('c10-expunge-no-find-deleted', 'C10', 'R10.4', SESS,
+  '''        expunge_uids = await mbx.find_deleted(uid_set, selected)
+        await mbx.delete(expunge_uids)''',
+  '''        expunge_uids = [uid for _, uid in
+                        selected.messages.get_uids(uid_set)]
+        await mbx.delete(expunge_uids)''')
+V('c10-find-deleted-no-filter', 'C10', 'R10.4', BMBX,
+  '''        return [msg.uid async for _, msg in self.find(seq_set, selected)
+                if Deleted in msg.get_flags(session_flags)]''',
+  '''        return [msg.uid async for _, msg in self.find(seq_set, selected)]''')
+V('c10-uid-expunge-ignores-set', 'C10', 'R10.4', SESS,
+  '''        if uid_set is None:
+            uid_set = SequenceSet.all(uid=True)''',
+  '''        uid_set = SequenceSet.all(uid=True)''')
+V('c10-copy-drops-flags', 'C10', 'R10.5', DICTMBX,
+  '''        return cls(uid, msg.internal_date, msg.permanent_flags,
+                   expunged=expunged, email_id=msg.email_id,''',
+  '''        return cls(uid, msg.internal_date, frozenset(),
+                   expunged=expunged, email_id=msg.email_id,''')
+V('c10-copy-new-date', 'C10', 'R10.5', DICTMBX,
+  '''        return cls(uid, msg.internal_date, msg.permanent_flags,''',
+  '''        return cls(uid, datetime.now(), msg.permanent_flags,''')
+V('c10-append-ignores-flags', 'C10', 'R10.5', DICTMBX,
+  '''            message = Message(new_uid, when, append_msg.flag_set,''',
+  '''            message = Message(new_uid, when, frozenset(),''')
+V('c10-peek-sets-seen', 'C10', 'R10.6', FATTR,
+  '''        if self.value == b'BODY' and self.section:
+            return True''', '''        if self.value in (b'BODY', b'BODY.PEEK') and self.section:
+            return True''')
+V('c10-rfc822-header-sets-seen', 'C10', 'R10.6', FATTR,
+  "elif self.value in (b'RFC822', b'RFC822.TEXT'):",
+  "elif self.value in (b'RFC822', b'RFC822.TEXT', b'RFC822.HEADER'):")
+V('c10-binary-no-seen', 'C10', 'R10.6', FATTR,
+  '''        elif self.value == b'BINARY':
+            return True
+''', '')
+V('c10-fetch-replaces-flags', 'C10', 'R10.6', SESS,
+  'frozenset({Seen}), FlagOp.ADD)', 'frozenset({Seen}), FlagOp.REPLACE)')
+V('c10-star-uid-vs-exists', 'C10', 'R10.7', SEL,
+  '''        if seq_set.uid:
+            all_uids = seq_set.flatten(self.max_uid) & self._uids
+            return [(seq, uid) for seq, uid in enumerate(self._sorted, 1)
+                    if uid in all_uids]''',
+  '''        if seq_set.uid:
+            all_uids = seq_set.flatten(self.exists) & self._uids
+            return [(seq, uid) for seq, uid in enumerate(self._sorted, 1)
+                    if uid in all_uids]''')
+V('c10-move-diverges', 'C10', 'R10.8', SESS,
+  '''            dest_uid = await mbx.move(source_uid, dest,
+                                      recent=not dest_selected)
+            if dest_uid is not None:
+                if dest_selected:
+                    dest_selected.session_flags.add_recent(dest_uid)
+                uids.append((source_uid, dest_uid))''',
+  '''            dest_uid = await mbx.move(source_uid, dest,
+                                      recent=not dest_selected)
+            if dest_uid is not None:
+                uids.append((source_uid, dest_uid))''')
+# twins
+V('c10-twin-union-method', 'C10', 'R10.1', FLAGSPY,
+  'return frozenset(flag_set | operand)',
+  'return frozenset(flag_set).union(operand)', expect='silent')
+V('c10-twin-intersect-call', 'C10', 'R10.2', SESS,
+  'permanent_flags = selected.permanent_flags & flag_set',
+  'permanent_flags = selected.permanent_flags.intersect(flag_set)',
+  expect='silent')
+V('c10-twin-seen-frozenset', 'C10', 'R10.6', FATTR,
+  '''        if self.value == b'BODY' and self.section:
+            return True
+        elif self.value == b'BINARY':
+            return True
+        elif self.value in (b'RFC822', b'RFC822.TEXT'):
+            return True
+        return False''',
+  '''        if self.value == b'BODY':
+            return bool(self.section)
+        return self.value in (b'BINARY', b'RFC822', b'RFC822.TEXT')''',
+  expect='silent')
